@@ -131,6 +131,18 @@ def mergeBlocks (cmp : Cmp) : α → List (Motl α) → List (Motl α)
       shiftObj c (p :: m) :: mergeBlocks cmp (objMax (p.object_id + c) (shiftObj c m)) ms
     else (p :: m) :: mergeBlocks cmp (objMax p.object_id m) ms
 
+/-- the object-number offset the merging loop adds to each input (0 for an empty input and for one that
+is not shifted): the same recursion as `mergeBlocks`, keeping one entry PER INPUT -/
+def mergeOffsets (cmp : Cmp) : α → List (Motl α) → List α
+  | _, [] => []
+  | add, [] :: ms => 0 :: mergeOffsets cmp add ms
+  | add, (p :: m) :: ms =>
+    let mn := objMin p.object_id m
+    if cmp.test mn add then
+      let c := add - mn + 1
+      c :: mergeOffsets cmp (objMax (p.object_id + c) (shiftObj c m)) ms
+    else 0 :: mergeOffsets cmp (objMax p.object_id m) ms
+
 /-- `merge_and_renumber(motl_list)` -/
 def mergeRenumber (nat : Nat → α) (ls : List (Motl α)) : Motl α :=
   renumberParticles nat (mergeBlocks mergeRenumberShiftCmp 0 ls).flatten
